@@ -218,6 +218,11 @@ def algebra_catalogue():
         leaf("Multiply", [3], [2, 1], v21[0], v21[1], [1]),
         leaf("Flip", [2, 3], [1]),
         leaf("FiniteDifference", [3], []),
+        # block operators with gaps / a left-over border (co-isometries that are not isometries) and with overlap, so that
+        # they occur as the outer, inner and middle factor of compositions whose normal operator is taken
+        leaf("A2B", [3], [1], [2]),
+        leaf("B2A", [3], [1], [2]),
+        leaf("A2B", [3], [2], [1]),
         leaf("MatMul", [3, 1], [2, 3], [1, 0, 2, -1, 1, 0], [0, 1, 0, 0, -1, 2], [0]),
     ]
 
